@@ -39,6 +39,7 @@ func (gen *generator) createTypeDefs() error {
 	//     (without bodies).
 	gen.new.typeDefs = make(map[string]types.Type)
 	for typeName, old := range gen.old.typeDefs {
+		verifTrace(gen, "createType", typeName)
 		// track is used to identify self-referential named types.
 		track := make(map[string]bool)
 		t, err := newType(typeName, old.Typ(), gen.old.typeDefs, track)
@@ -123,6 +124,7 @@ func newType(typeName string, old ast.LlvmNode, index map[string]*ast.TypeDef, t
 func (gen *generator) translateTypeDefs() error {
 	// 2b. Translate AST type definitions to IR.
 	for typeName, old := range gen.old.typeDefs {
+		verifTrace(gen, "translateType", typeName)
 		t := gen.new.typeDefs[typeName]
 		if _, err := gen.irTypeDef(t, old.Typ()); err != nil {
 			return errors.WithStack(err)
